@@ -618,6 +618,12 @@ def structure_zoo(rng, tier, small=False):
     n, v = pick_bits(rng, tier, n=nbits())
     if not small and rng.random() < 0.5:
         n = 70000 + rng.randrange(0, 64); v = 1 | (1 << (n - 1)) | (rng.getrandbits(3) << 40000)
+        if rng.random() < 0.4:
+            # the final partial block holds 32j+1 positions whose ends are exactly 65535 / 65536 apart: the largest offset a
+            # dense block can store (it equals the filler value of the sub-block table), and the first one it cannot
+            j = rng.choice([1, 1, 2, 7]); span = rng.choice([65535, 65535, 65536, 65534]); base = rng.choice([0, 1024, 2048])
+            n = base + span + 1 + rng.randrange(0, 3)
+            v = ((1 << base) - 1) | (((1 << (32 * j)) - 1) << base) | (1 << (base + span))
         if rng.random() < 0.5: v = ((1 << n) - 1) ^ v
     L.append('new 2 da new %s %d %d' % (bits_lit(n, v), rng.randrange(2), rng.randrange(2))); kinds[2] = 'da'
     n, v = pick_bits(rng, tier, n=nbits()); L.append('new 3 sa new %s %d' % (bits_lit(n, v), rng.randrange(2))); kinds[3] = 'sa'
